@@ -26,6 +26,7 @@ verus! {
 /// pos_le / pos_lt form a total order (used by the nesting lemma and by callers)
 proof fn lemma_pos_order(a: (u32, u32), b: (u32, u32), c: (u32, u32))
     ensures
+        [[L: lemma/pos_le_is_a_total_order]]
         pos_le(a, a),
         pos_le(a, b) || pos_le(b, a),
         pos_le(a, b) && pos_le(b, a) ==> a == b,
@@ -43,6 +44,7 @@ proof fn lemma_data_in_span_overlaps(c: u32, s: u32, e: u32, qs: u32, qe: u32, c
         pos_le((c, e), (c2, e2)),
         s < qe && e > qs,
     ensures
+        [[L: lemma/data_interval_in_span_and_query_overlaps]]
         overlaps_spec(c, qs, qe, c1, s1, c2, e2),
 {
 }
@@ -54,6 +56,7 @@ proof fn lemma_overlaps_nesting(q: u32, qs: u32, qe: u32, a1: u32, a1s: u32, a2:
         pos_le((b2, b2e), (a2, a2e)),
         overlaps_spec(q, qs, qe, b1, b1s, b2, b2e),
     ensures
+        [[L: lemma/overlaps_nesting]]
         overlaps_spec(q, qs, qe, a1, a1s, a2, a2e),
 {
 }
@@ -61,6 +64,7 @@ proof fn lemma_overlaps_nesting(q: u32, qs: u32, qe: u32, a1: u32, a1s: u32, a2:
 /// the query (so nothing inside the span can intersect the query)
 proof fn lemma_not_overlaps_disjoint(q: u32, qs: u32, qe: u32, b1: u32, b1s: u32, b2: u32, b2e: u32)
     ensures
+        [[L: lemma/not_overlaps_iff_wholly_before_or_after]]
         !overlaps_spec(q, qs, qe, b1, b1s, b2, b2e) <==> (pos_lt((b2, b2e), (q, qs)) || pos_lt((q, qe), (b1, b1s))),
 {
 }
